@@ -17,7 +17,6 @@ import (
 	"reflect"
 	"runtime"
 	"sync"
-	"sync/atomic"
 )
 
 var decoderMap sync.Map
@@ -80,20 +79,13 @@ var decodersBeingBuilt sync.Map
 
 // decoderBeingBuilt stands in for the decoder of a type while that decoder is being built.
 type decoderBeingBuilt struct {
-	t      reflect.Type
-	valdec atomic.Value
+	t reflect.Type
 }
-
-type foundDecoder struct{ valdec ValueDecoder }
 
 func (d *decoderBeingBuilt) Decode(dec *Decoder, p interface{}, tag byte) {
 	var valdec ValueDecoder
-	if found, ok := d.valdec.Load().(foundDecoder); ok {
-		valdec = found.valdec
-	}
 	for valdec == nil {
 		if valdec = getRegisteredValueDecoder(d.t); valdec != nil {
-			d.valdec.Store(foundDecoder{valdec})
 			break
 		}
 		if _, busy := decodersBeingBuilt.Load(d.t); !busy {
